@@ -1,5 +1,6 @@
 import QProofs.C19
 import QGen.C19
+import Mathlib.LinearAlgebra.Matrix.NonsingularInverse
 import Mathlib.Logic.Equiv.Fin.Basic
 import Mathlib.Algebra.BigOperators.Fin
 /-!
@@ -112,10 +113,6 @@ end single
 section joint
 variable {K : Type} [Field K] [CharZero K] {m k : Nat}
 
-/-- hypotheses on a list of schedules: distributions sum to one, sample sizes are positive -/
-def Good (l : List (Mat K k m × Vec K m × Nat)) : Prop :=
-  ∀ x ∈ l, (∑ i, x.2.1.get i = 1) ∧ 1 ≤ x.2.2
-
 theorem Good.tail {x : Mat K k m × Vec K m × Nat} {r : List (Mat K k m × Vec K m × Nat)}
     (h : Good (x :: r)) : Good r := fun y hy => h y (List.mem_cons_of_mem _ hy)
 
@@ -219,11 +216,6 @@ theorem mse_linear_var_exact {a : Nat} (l : List (Vec K m × Nat))
     mseLinearVar (covBlocks (uniArgs l)) Ainv = mseLinearExact (splitCols l Ainv) := by
   rw [mseLinearVar_eq_linTrace, mse_linear_joint _ (splitCols_good l hl Ainv)]
 
-/-- exact mean squared error of all empirical distributions: `Σ_s E‖f_s − p_s‖²` -/
-def mseEmpiExactTotal : List (Vec K m × Nat) → K
-  | [] => 0
-  | (p, n) :: r => mseEmpiExact p n + mseEmpiExactTotal r
-
 /-- C19 (`calc_mse_empi_dists_analytical`): the sum of the traces of the covariance blocks equals
 `Σ_s E‖f_s − p_s‖²`, and equals the trace of the total (direct-sum) covariance matrix. -/
 theorem mse_empi_total_exact (l : List (Vec K m × Nat))
@@ -276,6 +268,25 @@ theorem mse_linear_povm_qop (bs : List (Block K)) (d2 mo : Nat)
   apply Mat.toM_injective
   simp [conjugate, Matrix.mul_assoc, Matrix.transpose_mul]
 
+/-- C19 (POVM tomography, object mode, as an expectation): for schedules with a common outcome count the value the code returns is
+`E‖v̂ − v‖² + E‖S(v̂ − v)‖²` over the product of the multinomial laws — the exact mean squared error of all POVM elements, the
+implied last one included (`povm_last_element_error`). -/
+theorem mse_linear_povm_qop_exact [CharZero K] {m : Nat} (l : List (Vec K m × Nat))
+    (hl : ∀ x ∈ l, (∑ i, x.1.get i = 1) ∧ 1 ≤ x.2) (d2 mo : Nat)
+    (Ainv : Mat K ((mo - 1) * d2) (dsSize (covBlocks (uniArgs l)))) :
+    mseLinearPovmQop (covBlocks (uniArgs l)) Ainv d2 mo
+      = .ok (mseLinearExact (splitCols l Ainv) + mseLinearExact (splitCols l ((matS d2 mo).mul Ainv))) := by
+  rw [mse_linear_povm_qop, mse_linear_var_exact l hl, mse_linear_var_exact l hl]
+
+/-- `calc_left_inv` accepts a WIDE matrix of full row rank (its test is `min(shape) == rank`) and then returns something that is not
+a left inverse: `A = [1 0]`, `pinv(AᵀA) = diag(1,0)`, result `[1 0]ᵀ`, `L·A = diag(1,0) ≠ 1` — so the contract `hG` of
+`left_inv_spec` cannot hold for wide matrices (forward models of tomography are tall). -/
+theorem left_inv_wide_fails :
+    ∃ (L : Mat Rat 2 1), leftInv (K := Rat) (Mat.ofFn (m := 1) (n := 2) fun _ j => if j.val = 0 then 1 else 0) 1
+        (Mat.ofFn fun i j => if i.val = 0 ∧ j.val = 0 then 1 else 0) = .ok L ∧
+      (L.mul (Mat.ofFn (m := 1) (n := 2) fun _ j => if j.val = 0 then (1 : Rat) else 0)) ≠ Mat.one := by
+  refine ⟨Mat.ofFn fun i _ => if i.val = 0 then 1 else 0, by decide +kernel, by decide +kernel⟩
+
 /-- C19 (`calc_left_inv`): when the rank test passes and numpy's `pinv(AᵀA)` is an inverse of `AᵀA`
 (full column rank), the result is a left inverse of `A`; so `v̂ = A⁺(f − b)` recovers `v` from `f = Av + b`. -/
 theorem left_inv_spec {m n : Nat} (A : Mat K m n) (rank : Nat) (G : Mat K n n) (L : Mat K n m)
@@ -290,21 +301,58 @@ theorem left_inv_spec {m n : Nat} (A : Mat K m n) (rank : Nat) (G : Mat K n n) (
     refine ⟨?_, by simpa using hr⟩
     rw [Mat.toM_mul, Mat.toM_transpose, Matrix.mul_assoc, hG]
 
-/-- C19 (`calc_se`): squared error of two lists of arrays is the sum of the squared distances;
-`calc_mse_prob_dists` returns their mean. -/
-theorem se_cons (x y : List K) (xs ys : List (List K)) :
-    se (x :: xs) (y :: ys) = sqDist x y + se xs ys := by
-  simp [se, lsum]
+/-- C19 (`calc_se`, inner term): for arrays of equal length the value is `Σ (x_i − y_i)²`. -/
+theorem sqDist_eq (x y : List K) (h : x.length = y.length) :
+    sqDist x y = .ok (lsum ((x.zip y).map fun (a, b) => (a - b) * (a - b))) := by
+  simp [sqDist, h]
 
-theorem sqDist_cons (a b : K) (x y : List K) :
-    sqDist (a :: x) (b :: y) = (a - b) * (a - b) + sqDist x y := by
-  simp [sqDist, lsum]
+/-- arrays of different lengths, neither of length 1 (no broadcast): numpy's `x - y` raises, so does the model. -/
+theorem sqDist_mismatch (x y : List K) (h : x.length ≠ y.length) (hx : x.length ≠ 1) (hy : y.length ≠ 1) :
+    sqDist x y = .error .broadcast := by
+  have h1 : ¬ (x.length = 1 ∧ y.length ≠ 1) := fun hh => hx hh.1
+  have h2 : ¬ (y.length = 1 ∧ x.length ≠ 1) := fun hh => hy hh.1
+  simp only [sqDist, if_neg h1, if_neg h2, if_neg h]
 
-/-- the mean of the model is the arithmetic mean; the spread is the ddof = 1 sample variance:
-for two repetitions `var = (x − y)²/2`. -/
-theorem varDdof1_pair [CharZero K] (x y : K) : varDdof1 [x, y] = (x - y) * (x - y) / 2 := by
-  simp [varDdof1, mean, lsum]
+/-- C19 (`calc_se`): the squared error of two lists of arrays is the sum of the squared distances, pair by pair. -/
+theorem se_cons (x y : List K) (xs ys : List (List K)) (d r : K)
+    (hd : sqDist x y = .ok d) (hr : se xs ys = .ok r) : se (x :: xs) (y :: ys) = .ok (d + r) := by
+  unfold se at hr ⊢
+  simp only [List.zip_cons_cons, List.mapM_cons, hd, bind, Except.bind, pure, Except.pure] at hr ⊢
+  cases hm : List.mapM (fun p : List K × List K => sqDist p.1 p.2) (xs.zip ys) with
+  | error e => simp [hm] at hr
+  | ok ds =>
+    simp only [hm] at hr ⊢
+    injection hr with hr
+    simp [lsum, ← hr]
+
+/-- C19 (mean): the arithmetic mean (numpy gives `nan` for an empty list: `mean? [] = none`). -/
+theorem mean?_spec (l : List K) (h : l ≠ []) : mean? l = some (lsum l / (l.length : K)) := by
+  simp [mean?, h]
+
+/-- C19 (standard deviation): for more than `ddof` samples the squared `np.std(·, ddof)` is `Σ(x − mean)²/(len − ddof)`, any length. -/
+theorem varDdof?_spec (ddof : Nat) (l : List K) (h : ddof < l.length) :
+    varDdof? ddof l = some (lsum (l.map fun x => (x - lsum l / (l.length : K)) * (x - lsum l / (l.length : K)))
+      / ((l.length - ddof : Nat) : K)) := by
+  simp [varDdof?, not_le.mpr h]
+
+/-- with at most `ddof` samples numpy returns `nan` (one repetition with `ddof = 1`): the model returns `none`, not 0. -/
+theorem varDdof?_nan (ddof : Nat) (l : List K) (h : l.length ≤ ddof) : varDdof? ddof l = none := by
+  simp [varDdof?, h]
+
+/-- two repetitions: `var = (x − y)²/2`. -/
+theorem varDdof1_pair [CharZero K] (x y : K) : varDdof? 1 [x, y] = some ((x - y) * (x - y) / 2) := by
+  simp [varDdof?, lsum]
   ring
+
+/-- C19 (`calc_mse_prob_dists`, and source tie of `ddof`): (mean, std²) of the per-repetition squared errors with the `ddof` read from
+the source (`QGen.C19.ddofMseProbDists`); a change of the model's `ddof` or of the source's breaks this proof. -/
+theorem mseProbDists_eq (xsl ysl : List (List (List K))) (ses : List K)
+    (h : (xsl.zip ysl).mapM (fun p : List (List K) × List (List K) => se p.1 p.2) = .ok ses) :
+    mseProbDists xsl ysl = .ok (mean? ses, varDdof? QGen.C19.ddofMseProbDists ses) := by
+  unfold mseProbDists
+  simp only [h, bind, Except.bind, pure, Except.pure]
+  rfl
+
 
 end helpers
 
@@ -326,11 +374,21 @@ theorem replace_noop (ps : List K) (eps : K) (h : ∀ p ∈ ps, eps ≤ p) :
   intro p hp
   simp [not_lt.mpr (h p hp)]
 
-/-- C19 (`calc_fisher_matrix`, textbook definition): when the call succeeds and no probability is below
-`eps`, entry `(a,b)` of the result is `Σ_x ∂_a p_x ∂_b p_x / p_x` over the outcomes. -/
+/-- entry `(a,b)` of the matrix the code accumulates: `Σ_x g_x[a]·g_x[b] / prob_x` over the outcomes, in list order -/
+theorem fisherRaw_entry (sv : Nat) (probs : List K) (grads : List (List K)) (a b : Nat) (ha : a < sv) (hb : b < sv) :
+    ((fisherRaw sv probs grads)[a]?).bind (·[b]?)
+      = some (lsum ((probs.zip grads).map fun (pr, g) => g.getD a 0 * g.getD b 0 / pr)) := by
+  simp [fisherRaw, List.getElem?_map, List.getElem?_range, ha, hb]
+
+
+/-- C19 (`calc_fisher_matrix`, textbook definition): when the call succeeds and no probability is below `eps`, all gradient
+vectors have the length `sv` of the first one (so no default value of `getD` is ever read), `eps > 0`, and entry `(a,b)` of the
+returned matrix is `Σ_x ∂_a p_x · ∂_b p_x / p_x` over the outcomes. -/
 theorem fisher_formula (ps : List K) (grads : List (List K)) (eps : K) (sv : Nat) (F : List (List K))
     (hok : fisher ps grads eps = .ok (sv, F)) (h : ∀ p ∈ ps, eps ≤ p) :
-    F = fisherRaw sv ps grads ∧ ps.length = grads.length ∧ 0 < eps := by
+    ps.length = grads.length ∧ 0 < eps ∧ (∀ g ∈ grads, g.length = sv) ∧ (∃ g0 r, grads = g0 :: r) ∧
+    ∀ a b, a < sv → b < sv →
+      (F[a]?).bind (·[b]?) = some (lsum ((ps.zip grads).map fun (pr, g) => g.getD a 0 * g.getD b 0 / pr)) := by
   unfold fisher at hok
   simp only [bind, Except.bind, pure, Except.pure] at hok
   split at hok
@@ -343,13 +401,23 @@ theorem fisher_formula (ps : List K) (grads : List (List K)) (eps : K) (sv : Nat
       · rename_i heps
         split at hok
         · cases hok
-        · split at hok
+        · rename_i g0 r
+          split at hok
           · cases hok
-          · injection hok with hok
+          · rename_i hrag
+            injection hok with hok
             injection hok with h1 h2
             subst h1
             rw [replace_noop ps eps h] at h2
-            exact ⟨h2.symm, by simpa using hlen, lt_of_not_ge heps⟩
+            subst h2
+            refine ⟨by simpa using hlen, lt_of_not_ge heps, ?_, ⟨g0, r, rfl⟩, ?_⟩
+            · intro g hg
+              by_contra hne
+              apply hrag
+              rw [List.any_eq_true]
+              exact ⟨g, hg, by simpa using hne⟩
+            · intro a b ha hb
+              exact fisherRaw_entry _ ps (g0 :: r) a b ha hb
 
 end fisherThm
 
@@ -372,9 +440,42 @@ theorem fisher_is_score_covariance (p : Vec K m) (hpos : ∀ x, p.get x ≠ 0) (
   have := hpos i
   field_simp
 
-/-- C19 (`_calc_cramer_rao_bound`): the bound is `tr(F⁻¹)/N`. -/
-theorem crb_formula {nv : Nat} (Finv : Mat K nv nv) (N : K) : crb Finv N = Finv.toM.trace / N := by
+/-- the list form of the Fisher entry on typed inputs is the finite sum over the outcomes -/
+theorem fisher_entry_sum (p : Vec K m) (G : Mat K m nv) (a b : Fin nv) :
+    lsum (((List.ofFn p.get).zip (List.ofFn fun x => List.ofFn (G.get x))).map
+        fun (pr, g) => g.getD a.val 0 * g.getD b.val 0 / pr)
+      = ∑ x, G.get x a * G.get x b / p.get x := by
+  rw [lsum_zip_ofFn]
+  refine Finset.sum_congr rfl fun x _ => ?_
+  simp [List.getD_eq_getElem?_getD]
+
+/-- C19 (Fisher matrix = score covariance, on the model's own matrix): entry `(a,b)` of what `calc_fisher_matrix` accumulates for
+probabilities `p` and gradient rows `G` is `E_{x∼p}[(∂_a p_x/p_x)(∂_b p_x/p_x)]` (one draw of the multinomial law). -/
+theorem fisher_entry_is_score_expectation (p : Vec K m) (hpos : ∀ x, p.get x ≠ 0) {nv : Nat} (G : Mat K m nv) (a b : Fin nv) :
+    lsum (((List.ofFn p.get).zip (List.ofFn fun x => List.ofFn (G.get x))).map
+        fun (pr, g) => g.getD a.val 0 * g.getD b.val 0 / pr)
+      = expectN p 1 (fun c => ∑ x, (c.get x : K) * ((G.get x a / p.get x) * (G.get x b / p.get x))) := by
+  rw [fisher_entry_sum]
+  have := fisher_is_score_covariance p hpos (Vec.ofFn fun x => G.get x a) (Vec.ofFn fun x => G.get x b)
+  simpa using this
+
+/-- C19 (`_calc_cramer_rao_bound`): with `Finv` numpy's inverse of the total Fisher matrix `F` (contract `Finv·F = 1`), the bound is
+`tr(F⁻¹)/N` (Mathlib's matrix inverse). -/
+theorem crb_formula {nv : Nat} (F Finv : Mat K nv nv) (N : K) (h : Finv.toM * F.toM = 1) :
+    crb Finv N = (F.toM⁻¹).trace / N := by
+  rw [Matrix.inv_eq_left_inv h]
   simp [crb]
+
+/-- C19 (`StandardPovmt.calc_cramer_rao_bound`, flag on): `[tr(F⁻¹) + tr(S F⁻¹ Sᵀ)]/N` — the bound for the explicit elements plus the
+bound for the implied last element `−S·δv` (`matS_mulVec`, `povm_last_element_error`). -/
+theorem crb_povm_formula (d2 mo : Nat) (F Finv : Mat K ((mo - 1) * d2) ((mo - 1) * d2)) (N : K)
+    (h : Finv.toM * F.toM = 1) :
+    crbPovm d2 mo Finv N
+      = ((F.toM⁻¹).trace + ((matS (K := K) d2 mo).toM * F.toM⁻¹ * (matS (K := K) d2 mo).toMᵀ).trace) / N := by
+  rw [Matrix.inv_eq_left_inv h]
+  simp only [crbPovm, crb, Mat.trace_eq, conjugate_toM]
+  rw [add_div]
+
 
 end score
 
@@ -393,7 +494,7 @@ theorem matS_mulVec {K : Type} [Field K] (d2 mo : Nat) (v : Vec K ((mo - 1) * d2
   have : ∀ b : Fin d2, (matS (K := K) d2 mo).get a (finProdFinEquiv (k, b)) * v.get (finProdFinEquiv (k, b))
       = if b = a then v.get (finProdFinEquiv (k, b)) else 0 := by
     intro b
-    simp only [matS, Mat.get_ofFn, finProdFinEquiv_apply_val]
+    simp only [matS, matSWith, Mat.get_ofFn, finProdFinEquiv_apply_val]
     have hb : (b.val + d2 * k.val) % d2 = b.val := by
       rw [Nat.add_mul_mod_self_left]; exact Nat.mod_eq_of_lt b.isLt
     rw [hb]
@@ -402,11 +503,6 @@ theorem matS_mulVec {K : Type} [Field K] (d2 mo : Nat) (v : Vec K ((mo - 1) * d2
     · have : b.val ≠ a.val := fun hh => h (Fin.ext hh)
       simp [h, this]
   simp only [this, Finset.sum_ite_eq', Finset.mem_univ, if_true]
-
-/-- the element a POVM with `on_para_eq_constraint=True` does not store: `c − Σ_k E_k` (`c` = coefficient vector of
-the identity) -/
-def lastElem {K : Type} [Field K] (d2 mo : Nat) (c : Vec K d2) (v : Vec K ((mo - 1) * d2)) : Vec K d2 :=
-  Vec.ofFn fun a => c.get a - ∑ k : Fin (mo - 1), v.get (finProdFinEquiv (k, a))
 
 /-- C19 (POVM, implied last element): the error of the implied element is `−S(v̂ − v)`. -/
 theorem povm_last_element_error {K : Type} [Field K] (d2 mo : Nat) (c : Vec K d2)
@@ -454,13 +550,16 @@ theorem gen_constants_match_model :
     QGen.C19.qmptOverridesQop = false ∧ QGen.C19.qmptOverridesCrb = false := by
   decide +kernel
 
-/-- the model's sample variance divides by `length − ddof` with the generated `ddof` -/
-theorem varDdof1_uses_gen_ddof {K : Type} [Field K] (l : List K) :
-    varDdof1 l = lsum (l.map fun x => (x - mean l) * (x - mean l))
-      / ((l.length - QGen.C19.ddofMseProbDists : Nat) : K) := rfl
+/-- C19 (source tie, `_generate_matS`): the model's `matS` IS the hstack with the block count read from the source
+(`num_outcomes − QGen.C19.matSOffset`); changing either the model's offset or the source's breaks this proof. -/
+theorem matS_eq_gen {K : Type} [Zero K] [One K] (d2 mo : Nat) :
+    matS (K := K) d2 mo = matSWith QGen.C19.matSOffset d2 mo := rfl
 
-/-- the model's `matS` has `(num_outcomes − matSOffset)·d²` columns with the generated offset -/
-theorem matS_uses_gen_offset (d2 mo : Nat) : (mo - QGen.C19.matSOffset) * d2 = (mo - 1) * d2 := rfl
+/-- C19 (source tie, default `eps`): the threshold the driver uses when the implementation is called without `eps` is the one read
+from the three functions of the source. -/
+theorem defaultEps_eq_gen :
+    defaultEps = QGen.C19.epsFisher ∧ defaultEps = QGen.C19.epsReplace ∧ defaultEps = QGen.C19.epsFisherTotal := by
+  decide +kernel
 
 /-! ## measurement-process tomography in object mode (open findings D13 / D13b) -/
 section qmpt
@@ -539,21 +638,24 @@ theorem matSQmpt_mulVec {K : Type} [Field K] (d2 mo : Nat) (v : Vec K (mo * (d2 
     intro hj
     exact h (hj ▸ j.isLt)
 
-/-- OPEN (D13): the object-mode MSE the code returns for `StandardQmpt` (the base-class value) is not the exact object
-error. Smallest instance of the structure: one stored entry `h₀`, implied entry `1 − h₀`, one schedule with
-`p = (h₀, 1 − h₀) = (1/2, 1/2)`, `n = 2`, `A⁺ = [1/2, −1/2]`: the code's value is `1/8`, the exact `E‖object error‖²` is `1/4`. -/
+/-- OPEN (D13): the object-mode MSE the code returns for `StandardQmpt` (the base-class value) is not the exact object error.
+Instance with `d² = 2`, two outcomes (6 variables), one schedule `p = (1/2,1/2)`, `n = 2`, `A⁺[i] = (i+1, −(i+1))`. -/
 theorem qmpt_object_mse_fails :
-    mseLinearQopBase (K := Rat) (covBlocks [⟨2, Vec.ofFn fun _ => 1/2, 2⟩])
-        (Mat.ofFn (m := 1) fun _ j => if j.val = 0 then 1/2 else -1/2) = 1/8 ∧
-    mseLinearQmptObject (K := Rat) (covBlocks [⟨2, Vec.ofFn fun _ => 1/2, 2⟩]) 1 2
-        (Mat.ofFn fun _ j => if j.val = 0 then 1/2 else -1/2) = 1/4 := by
+    ¬ ∀ (bs : List (Block Rat)) (Ainv : Mat Rat (2 * (2 * 2) - 2) (dsSize bs)),
+        mseLinearQopBase bs Ainv = mseLinearQmptObject bs 2 2 Ainv := by
+  intro h
+  have h' := h (covBlocks [⟨2, Vec.ofFn fun _ => 1/2, 2⟩])
+    (Mat.ofFn fun i j => if j.val = 0 then (i.val : Rat) + 1 else -((i.val : Rat) + 1))
+  revert h'
   decide +kernel
 
-/-- OPEN (D13b): likewise the Cramér–Rao bound the code returns for `StandardQmpt` with the flag on is `tr(F⁻¹)/N`
-of the variables (`1/40` on the instance `F = 4`, `N = 10`), the object-parametrisation bound is `1/20`. -/
+/-- OPEN (D13b): likewise the Cramér–Rao bound the code returns for `StandardQmpt` with the flag on is `tr(F⁻¹)/N` of the variables, not
+the object-parametrisation bound (instance `d² = 2`, two outcomes, `F⁻¹ = 1`, `N = 10`: `6/10` vs `8/10`). -/
 theorem qmpt_crb_fails :
-    crb (K := Rat) (Mat.ofFn (m := 1) (n := 1) fun _ _ => 1/4) 10 = 1/40 ∧
-    crbQmptObject (K := Rat) 1 2 (Mat.ofFn fun _ _ => 1/4) 10 = 1/20 := by
+    ¬ ∀ (Finv : Mat Rat (2 * (2 * 2) - 2) (2 * (2 * 2) - 2)) (N : Rat), crb Finv N = crbQmptObject 2 2 Finv N := by
+  intro h
+  have h' := h Mat.one 10
+  revert h'
   decide +kernel
 
 /-! ## validation of the helpers (repaired code) -/
@@ -583,6 +685,31 @@ theorem fisher_total_size (pss : List (List Rat)) (gradss : List (List (List Rat
             injection h with hn hM
             exact ⟨⟨g00, g0r, gr, rfl, hn.symm⟩, by simpa using h1, by simpa using h2⟩
           · cases h
+
+section totalValue
+variable {K : Type} [Field K] [LinearOrder K] [IsStrictOrderedRing K]
+
+/-- C19 (`calc_fisher_matrix_total`, one step of the accumulation): a distribution whose Fisher matrix has the accumulator's size adds
+`w · F` to it. -/
+theorem fisherAcc_step (size : Nat) (eps : K) (ps : List K) (grads : List (List K))
+    (r : List (List K × List (List K))) (w : K) (ws : List K) (acc F : List (List K))
+    (hF : fisher ps grads eps = .ok (size, F)) :
+    fisherAcc size eps ((ps, grads) :: r) (w :: ws) acc
+      = fisherAcc size eps r ws (addRows acc (scaleRows w F)) := by
+  simp [fisherAcc, hF, accumulate, bind, Except.bind, scaleRows]
+
+/-- C19 (`calc_fisher_matrix_total`, value — partial): for one distribution the total is `0 + w·F`; for several, `fisherAcc_step` adds
+`w_j·F_j` one after the other. Missing: the closed sum `Σ_j w_j F_j` entrywise for an arbitrary number of distributions. -/
+theorem fisherTotal_single_partial (ps : List K) (g0 : List K) (gr : List (List K)) (w eps : K) (F : List (List K))
+    (hw : ¬ w < 0)
+    (hF : fisher ps (g0 :: gr) eps = .ok (g0.length, F)) :
+    fisherTotal [ps] [g0 :: gr] [w] eps = .ok (g0.length, addRows (zeroRows g0.length) (scaleRows w F)) := by
+  unfold fisherTotal
+  simp only [List.length_cons, List.length_nil, ne_eq, not_true_eq_false, if_false, List.any_cons,
+    List.any_nil, Bool.or_false, decide_eq_true_eq, hw, List.zip_cons_cons, List.zip_nil_right]
+  rw [fisherAcc_step _ _ _ _ _ _ _ _ F hF]
+  simp [fisherAcc]
+end totalValue
 
 /-- C19 (`calc_direct_sum`, squareness): a block is accepted exactly when it is square. -/
 theorem direct_sum_accepts_iff_square {K : Type} (k l : Nat) (B : Mat K k l) :
@@ -615,5 +742,38 @@ example : mseLinearExact (K := Rat) (m := 2) (k := 1)
     [(Mat.ofFn fun _ j => (j.val : Rat) + 1, Vec.ofFn fun j => if j.val = 0 then 1/4 else 3/4, 2),
      (Mat.ofFn fun _ j => if j.val = 0 then 1 else 0, Vec.ofFn fun _ => 1/2, 3)] = 17/96 := by
   decide +kernel
+
+
+-- further non-vacuity instances (hypotheses of the theorems above on concrete rational data)
+/-- `left_inv_spec`: a 3×2 matrix of full column rank, rank 2, and the exact inverse of `AᵀA` -/
+example : (leftInv (K := Rat) (Mat.ofFn (m := 3) (n := 2) fun i j => if i.val = j.val ∨ i.val = 2 then 1 else 0) 2
+    (Mat.ofFn fun i j => if i = j then 2/3 else -1/3)).toOption.map (fun L => (L.mul
+      (Mat.ofFn (m := 3) (n := 2) fun i j => if i.val = j.val ∨ i.val = 2 then (1 : Rat) else 0)).toList.map (·.toList))
+    = some [[1, 0], [0, 1]] := by decide +kernel
+/-- `mse_linear_var_exact`, code side: the same two-schedule instance as the enumeration example gives `17/96` -/
+example : mseLinearVar (K := Rat)
+    (covBlocks (uniArgs [(Vec.ofFn fun j : Fin 2 => if j.val = 0 then (1/4 : Rat) else 3/4, 2), (Vec.ofFn fun _ => 1/2, 3)]))
+    (Mat.ofFn (m := 1) fun _ j => if j.val = 0 then 1 else if j.val = 1 then 2 else if j.val = 2 then 1 else 0) = 17/96 := by
+  decide +kernel
+/-- `mse_linear_povm_qop(_exact)`: `d² = 1`, three outcomes (two explicit elements), one schedule -/
+example : (mseLinearPovmQop (K := Rat) (covBlocks [⟨2, Vec.ofFn fun _ => 1/2, 2⟩])
+    (Mat.ofFn (m := (3 - 1) * 1) fun i j => if i.val = j.val then 1 else 0) 1 3).toOption = some (1/4) := by decide +kernel
+/-- `crb_formula` / `crb_povm_formula`: a Fisher matrix and its exact inverse -/
+example : (Mat.ofFn (m := 2) (n := 2) fun i j => if i = j then (1/2 : Rat) else 0).mul
+    (Mat.ofFn fun i j => if i = j then 2 else 0) = Mat.one := by decide +kernel
+example : crb (K := Rat) (Mat.ofFn (m := 2) (n := 2) fun i j => if i = j then 1/2 else 0) 10 = 1/10 := by decide +kernel
+example : crbPovm (K := Rat) 1 3 (Mat.ofFn fun i j => if i = j then 1/2 else 0) 10 = 2/10 := by decide +kernel
+/-- `replace_noop` / clipping active: probabilities above `eps` are kept, one below is replaced and the others shifted -/
+example : replaceProbDist (K := Rat) [1/4, 3/4] (1/100) = [1/4, 3/4] := by decide +kernel
+example : replaceProbDist (K := Rat) [0, 1/4, 3/4] (1/100) = [1/100, 1/4 - 1/200, 3/4 - 1/200] := by decide +kernel
+/-- `fisherQt_block`: two schedules with two outcomes each; schedule 1 is computed from rows 2–3 -/
+example : (fisherQt (K := Rat) [[1, 0], [-1, 0], [0, 1], [0, -1]] [1/2, 1/2, 1/4, 3/4] 2 1 [0, 0] defaultEps).toOption
+    = (fisher (K := Rat) [1/4, 3/4] [[0, 1], [0, -1]] defaultEps).toOption := by decide +kernel
+/-- sample statistics: one repetition has no standard deviation (numpy: nan), an empty list no mean; a length-1 array broadcasts -/
+example : varDdof? (K := Rat) 1 [5] = none ∧ mean? (K := Rat) [] = none ∧
+    (sqDist (K := Rat) [1, 2, 3] [1]).toOption = some 5 ∧ (sqDist (K := Rat) [1, 2, 3] [1, 2]).toOption = none := by
+  decide +kernel
+example : (mseProbDists (K := Rat) [[[1, 2]], [[3, 4]], [[0, 0]]] [[[1, 1]], [[1, 1]], [[1, 1]]]).toOption
+    = some (some (16/3), some (133/3)) := by decide +kernel
 
 end QM.C19
